@@ -73,6 +73,14 @@ def convert_series_to_internal_type(
             if is_bool_dtype(out):
                 raise ValueError(basic_error_msg + " This conversion is not supported.")
             else:
+                # Integers beyond 2**53 have no exact float representation.
+                if is_integer_dtype(out) and (
+                    (out > 2**53).any() or (out < -(2**53)).any()
+                ):
+                    raise ValueError(
+                        basic_error_msg + " This conversion is only supported for"
+                        " integers that can be represented exactly as float."
+                    )
                 try:
                     out = out.astype(float)
                 except ValueError as e:
